@@ -716,6 +716,21 @@ func writeEvidence(prop string, o checkOpts, results []*funcResult, selected []*
 		cov["explanation"] = fmt.Sprintf("proof obligations generated from the current source: %d, discharged: %d; %d obligation(s) fail and are listed as known findings, %d unlisted failure(s). Because discharged != obligations this run is not a proof-level claim for the whole property; every other obligation was discharged by the SMT back ends.",
 			proofObls, proofDischarged, len(knownHit), nfailed)
 	}
+	boundedKnown := 0
+	for _, r := range globalBounded {
+		boundedKnown += r.Known
+	}
+	if boundedKnown > 0 {
+		// a property with a recorded, unrepaired defect is not claimed at proof
+		// level, also when the defect shows in a bounded stand-in only
+		level = "other"
+		note := fmt.Sprintf("%d input(s) of the bounded stand-in(s) fail and are listed as known findings (printed as KNOWN-FINDING), so the property is not claimed at proof level.", boundedKnown)
+		if e, ok := cov["explanation"].(string); ok {
+			cov["explanation"] = e + " " + note
+		} else {
+			cov["explanation"] = fmt.Sprintf("proof obligations generated from the current source: %d, discharged: %d. ", proofObls, proofDischarged) + note
+		}
+	}
 	if len(globalStale) > 0 {
 		// clauses that could not be checked because the code no longer has what
 		// they name: the remaining obligations stand, but this is not a proof run
